@@ -251,7 +251,8 @@ Section Skeleton.
          (forall b, find_bond C x y = Some b -> is_cut C b = true -> edge_get m2 (phi C x) (phi C y) (S "bonding") <> None) /\
          (forall bv, edge_get m2 (phi C x) (phi C y) (S "bonding") = Some bv ->
             exists b s, find_bond C x y = Some b /\ is_cut C b = true /\ bv = VTup [VStr (dtext s b); VStr (dtext (negb s) b)]);
-    sk_closed : forall k1 k2, has_edge m2 k1 k2 = true -> has_node m2 k1 = true /\ has_node m2 k2 = true }.
+    sk_closed : forall k1 k2, has_edge m2 k1 k2 = true -> has_node m2 k1 = true /\ has_node m2 k2 = true;
+    sk_ez : forall x, In x (flat C) -> node_get m2 (phi C x) (S "ez_isomer_atoms") = None }.
 
   Theorem cut_bonding_skeleton :
     exists m1 fg1 m2 fg2,
@@ -327,7 +328,7 @@ Section Skeleton.
     fold BE in E2.
     exists m1, fg1, m2, (write_tables s1 fg1). split; [exact Hdisc|]. split.
     { unfold bonding_step, bonds_of. rewrite base_edges_ok, Htab. cbn [bind]. rewrite Hrun. cbn [bind]. rewrite Hap. reflexivity. }
-    constructor; [congruence| | |].
+    constructor; [congruence| | | |].
     - intros x Hx. destruct (Hattr1 x Hx) as (a & Ea & Fa). split; [|split; [|split]].
       + rewrite G2 by (intros _ E; apply str_eqb_eq in E; vm_compute in E; discriminate). now rewrite node_get_via, Ea, (fa_fragid _ _ _ Fa).
       + rewrite G2 by (intros _ E; apply str_eqb_eq in E; vm_compute in E; discriminate). now rewrite node_get_via, Ea, (fa_arom _ _ _ Fa).
@@ -395,5 +396,7 @@ Section Skeleton.
         destruct U as [[-> ->]|[-> ->]]; split; now apply Hk.
       + rewrite <- has_edge_attrs in He. apply (i_closed _ _ _ _ I) in He. rewrite off_total in He.
         split; apply Hk, gfind_has; rewrite Hkeys1; apply seq_nat_in; lia.
+    - intros x Hx. destruct (Hattr1 x Hx) as (a & Ea & Fa).
+      rewrite G2 by (intros _ E; apply str_eqb_eq in E; vm_compute in E; discriminate). now rewrite node_get_via, Ea, (fa_ez _ _ _ Fa).
   Qed.
 End Skeleton.
